@@ -8,6 +8,7 @@ M for C13 — libcoap's global lock (`global_lock`), transcribed from
                                              coap_lock_callback_ret_release (coap_lock_invert has the body of
                                              coap_lock_callback_release)
   src/coap_io.c                              the release window of coap_io_process_with_fds_lkd (`Cb.win`)
+  src/coap_net.c                             coap_startup(): the `coap_started` guard in front of coap_lock_init() (`startupFunc`)
   include/coap3/coap_mutex_internal.h        coap_mutex_lock/unlock/trylock = pthread mutex, coap_thread_pid
 
 Core Lean only.  Conventions (FRAMEWORK.md §3): every C quantity is a `Nat`; `uint32_t` arithmetic is `% 2^32`
@@ -24,7 +25,8 @@ reader that is not the holder the comparison is false in every intermediate stat
 where inside the holder's token it is scheduled.  (That these unsynchronised reads are data races in the C11 sense is
 outside the lock protocol and is TSan-observed only — see "partial" in design/C13.md.)
 MODEL DECISION A2.  `coap_started = 1` (coap_startup() has been called): coap_lock_lock_func never takes its
-`return 0` branch, so the `failed` argument of coap_lock_lock() is never executed.
+`return 0` branch, so the `failed` argument of coap_lock_lock() is never executed.  The system starts *after* the
+first coap_startup(); every later coap_startup() (documented: "subsequent calls are ignored") is the token `startup`.
 MODEL DECISION A3.  Thread `t : Nat` has `coap_thread_pid = t + 1`; `pid = 0` is "nobody" as in the C code.
 -/
 namespace Coap.Lock
@@ -126,6 +128,18 @@ def lockFunc (rc : Bool) (t : Tid) (g : G) : Option G :=
       | some _ => none                           -- coap_mutex_lock() blocks (also on the caller's own mutex)
       | none => some (acquire g)
 
+/-- `coap_startup()` as far as `global_lock` is concerned; `started` = the value of `coap_started` on entry:
+```
+  if (coap_started)
+    return;
+  coap_started = 1;
+  coap_lock_init();        -- memset(&global_lock.mutex, 0, …); coap_mutex_init(&global_lock.mutex);
+  …                        -- clock, PRNG, memory, DTLS: nothing that touches global_lock
+```
+`coap_lock_init()` re-creates the mutex (nobody holds the new one) and leaves pid / in_callback / lock_count alone. -/
+def startupFunc (started : Bool) (g : G) : G :=
+  if started then g else { g with owner := none }
+
 /-- the four callback macros, and the *release window* of an internal function: library code that is entered with
 the lock held gives it up around a blocking wait and takes it again before it goes on
 (`coap_lock_unlock(ctx); nfds = epoll_wait(…); coap_lock_lock(ctx, return -1);` in coap_io_process_with_fds_lkd).
@@ -185,12 +199,14 @@ def cbAfter (rc : Bool) (t : Tid) (k : Cb) (g : G) : Option G :=
 /-- What a thread does, as a flat token sequence (a well-nested program is a Dyck-like word, see `wn`):
 `lock` = entry of a `COAP_API` wrapper (`coap_lock_lock(c, return …)`), `unlock` = its exit,
 `cbIn k`/`cbOut k` = the halves of callback macro `k` around the application's function; `cbIn win`/`cbOut win` =
-the `coap_lock_unlock` / `coap_lock_lock` that open and close a release window inside library code. -/
+the `coap_lock_unlock` / `coap_lock_lock` that open and close a release window inside library code;
+`startup` = a repeated `coap_startup()` issued by application code (top level or inside a callback). -/
 inductive Tok where
   | lock
   | unlock
   | cbIn (k : Cb)
   | cbOut (k : Cb)
+  | startup       -- application code calls coap_startup() again (a second component initialising "its" libcoap)
   deriving DecidableEq, Repr
 
 /-- one token executed by thread `t`; `none` = `t` blocks on the mutex -/
@@ -200,6 +216,7 @@ def tokStep (rc : Bool) (t : Tid) (tok : Tok) (g : G) : Option G :=
   | .unlock => some (unlockFunc t g)
   | .cbIn k => some (cbBefore t k g)
   | .cbOut k => cbAfter rc t k g
+  | .startup => some (startupFunc true g)        -- A2: coap_started = 1
 
 /-! ### the pinned (pre-fix) `coap_lock_callback_ret` of the no-recursive-check variant, kept for the witness
 ```
@@ -216,6 +233,18 @@ def Pinned.tokStep (rc : Bool) (t : Tid) (tok : Tok) (g : G) : Option G :=
   | .cbIn .ret => some (Pinned.cbBeforeRet t g)
   | _ => Lock.tokStep rc t tok g
 
+/-! ### a `coap_startup()` that initialises the lock *before* looking at `coap_started` (seeded defect C13-7), kept
+for a `decide`d witness: the repeated call re-creates the mutex under its holder
+```
+  coap_lock_init();  if (coap_started) return;  coap_started = 1; …
+``` -/
+def Seeded.startupFunc (_started : Bool) (g : G) : G := { g with owner := none }
+
+def Seeded.tokStep (rc : Bool) (t : Tid) (tok : Tok) (g : G) : Option G :=
+  match tok with
+  | .startup => some (Seeded.startupFunc true g)
+  | _ => Lock.tokStep rc t tok g
+
 /-! ### threads, call stacks, well-nested programs, the interleaving semantics -/
 
 /-- a frame of a thread's call stack, as far as locking is concerned -/
@@ -230,13 +259,16 @@ def stackStep (tok : Tok) (st : List Frame) : List Frame :=
   | .unlock => st.tail
   | .cbIn k => .cb k :: st
   | .cbOut _ => st.tail
+  | .startup => st
 
 /-- nesting bound: the two counters are `uint32_t` -/
 def maxDepth : Nat := 4294967295
 
 /-- `wn st p`: with call stack `st` (top first) the remaining program `p` is well nested and returns to the
-top level: application code (top level or inside a callback) only calls the API; library code (inside an API
-function) only invokes callbacks or returns; a callback returns through the macro that invoked it. -/
+top level: application code (top level or inside a callback) only calls the API (a lock-taking function, or a
+repeated coap_startup()); library code (inside an API function) only invokes callbacks or returns — it never calls a
+lock-taking API function itself (T1 `HeldFn.apiCalls = 0`, and `C13.lib_api_call_deadlocks_or_faults` for what would
+happen); a callback returns through the macro that invoked it. -/
 def wn : List Frame → List Tok → Bool
   | st, [] => st.isEmpty
   | [], .lock :: p => wn [.api] p
@@ -244,6 +276,8 @@ def wn : List Frame → List Tok → Bool
   | .api :: st, .unlock :: p => wn st p
   | .api :: st, .cbIn k :: p => decide (st.length + 1 < maxDepth) && wn (.cb k :: .api :: st) p
   | .cb k :: st, .cbOut k' :: p => decide (k = k') && wn st p
+  | [], .startup :: p => wn [] p
+  | .cb k :: st, .startup :: p => wn (.cb k :: st) p
   | _, _ => false
 
 structure Thread where
@@ -364,6 +398,17 @@ structure LockFn where
 
 def LockFn.balanced (f : LockFn) : Bool :=
   f.exitsBalanced && f.loopsBalanced && f.failLeaves && f.ordered && f.quiet
+
+/-- one function of the compiled sources that has code running under the global lock: it is entered with the lock
+held (`*_lkd`, asserts the lock, or reached by direct calls from such code) or takes it itself (extract/lockbal.py
+`held_functions`) -/
+structure HeldFn where
+  file : String
+  name : String
+  entersHeld : Bool      -- entered with the lock held (false: a COAP_API wrapper / coap_new_context, which takes it)
+  heldCalls : Nat        -- call sites it executes with the lock held
+  apiCalls : Nat         -- … of which call a function that takes the lock at its own entry level (public API)
+  deriving DecidableEq, Repr
 
 /-- one invocation of an application-supplied function pointer in a compiled source file -/
 structure CbSite where
